@@ -881,6 +881,28 @@ func cmdCheck(prop, tier string, seed uint64, repo string) int {
 				min = rf
 				fl, _ = replayTape(b, min, "final0")
 			}
+			if h.v.Kind != "race" && !reproduces(fl, h.v.Kind, want) {
+				// Not even the original tape shows it when replayed alone in
+				// a fresh process: the violation needs what ran earlier in
+				// the worker process (process-global state of the code under
+				// test). The replay file then re-executes the worker slice
+				// up to this run.
+				min = rf
+				min.Slice = &sliceInfo{Tier: tier, Stride: uint64(tc.workers), Offset: h.line.Index % uint64(tc.workers)}
+				min.Violation = h.line.Violations
+				min.Scenario = h.line.Scenario
+				min.Note = "the violation does not show when this tape is replayed alone in a fresh process: it depends on the runs executed earlier in the same worker process; replay re-executes that worker slice up to this run"
+				fl = nil
+				dir := filepath.Join(outDir, "replays", prop)
+				os.MkdirAll(dir, 0o755)
+				p := filepath.Join(dir, slug(key)+".json")
+				bs, _ := json.MarshalIndent(min, "", " ")
+				os.WriteFile(p, bs, 0o644)
+				replayPaths = append(replayPaths, p)
+				fmt.Printf("VIOLATION property=%s replay=%s\n", prop, p)
+				fmt.Printf("  kind=%s key=%s run=%d (only after the earlier runs of its worker process)\n  %s\n", h.v.Kind, key, h.line.Index, strings.ReplaceAll(firstLines(h.v.Detail, 12), "\n", "\n  "))
+				continue
+			}
 			if fl != nil {
 				min.Violation = fl.Violations
 				min.Scenario = fl.Scenario
@@ -987,6 +1009,18 @@ func cmdReplay(path, repo string) int {
 			fatal2("INFRASTRUCTURE-ERROR %v", err)
 		}
 		inSlice := lines[len(lines)-1]
+		if len(rf.Violation) > 0 && rf.Violation[0].Kind != "process-history" {
+			// a violation that needs the earlier runs of its worker process
+			if inSlice.Index == rf.RunIndex && reproduces(&inSlice, rf.Violation[0].Kind, keysOf(rf.Violation, rf.Violation[0].Kind)) {
+				fmt.Printf("VIOLATION property=%s replay=%s\n", rf.Property, path)
+				for _, v := range inSlice.Violations {
+					fmt.Printf("  kind=%s key=%s (run %d, after the earlier runs of its worker slice)\n  %s\n", v.Kind, v.Key, rf.RunIndex, strings.ReplaceAll(firstLines(v.Detail, 12), "\n", "\n  "))
+				}
+				return 1
+			}
+			fmt.Printf("REPLAY-DIVERGED property=%s replay=%s: the worker slice re-executed up to run %d does not show the recorded violation\n", rf.Property, path, rf.RunIndex)
+			return 2
+		}
 		fresh, err := replayTape(b, &rf, "fresh")
 		if err != nil {
 			fatal2("INFRASTRUCTURE-ERROR %v", err)
